@@ -181,6 +181,20 @@ def run(ck):
     batch = [pre + x + suf for x in nums + dirs for pre in ("", " ", "a", "a ") for suf in ("", " ", ";", "\n", "x")]
     core.compare(ck, "boundary_numbers_and_directives", batch, lambda s: "lex %s" % hexs(s), counted=True)
     ck.count("boundary_numbers_and_directives", 0, set(batch), sample={"text": batch[len(batch) // 2]})
+    # (1e) every punctuation token followed, across every kind of separator, by every reserved word and by identifiers that are
+    # spelled like directive names: two tokens with exactly these kinds (`a # else` is a paste and a keyword)
+    puncts = list(gen.FIXED_TEXT.items())[:18]
+    seconds = [(w, kw[w]) for w in sorted(kw)] + [(w, "Id") for w in ("define", "ifdef", "ifndef", "endif", "elsewhere", "x", "_")] + [("7", "IntVal")]
+    seps = [" ", "\t", "  \t ", "\n", "\r\n", " /* c */ ", "/**/", " // c\n"]
+    pairs = [(pk, pt, w, wk, sp) for pk, pt in puncts for w, wk in seconds for sp in seps if not (pt in "+-" and wk == "IntVal" and False)]
+    ptexts = ["a " + pt + sp + w + " ;" for pk, pt, w, wk, sp in pairs]
+    pa_, _ = core.compare(ck, "punct_then_word", ptexts, lambda s_: "lex %s" % hexs(s_), counted=True)
+    for (pk, pt, w, wk, sp), text, ra in zip(pairs, ptexts, pa_):
+        got = [x.split(":")[0] for x in ra.split(" ") if x and x.split(":")[0] not in ("Whitespace", "LineComment", "BlockComment", "Eof")]
+        if got != ["Id", pk, wk, "Semi"]:
+            ck.fail(["C14", "token-pair", "%s %s" % (pk, w)], "%r followed by %r across %r is not lexed as %s then %s" % (pt, w, sp, pk, wk),
+                    {"cmd": "lex", "text_hex": hexs(text)}, ra[:200], str(["Id", pk, wk, "Semi"]))
+    ck.count("punct_then_word", 0, set(ptexts), sample={"text": ptexts[len(ptexts) // 3]})
     # (2) spec-level sequences: reference expectation vs implementation (and model)
     cases = []
     for _ in range(1500 if quick else 400000):
